@@ -43,6 +43,7 @@ func ruleC02(c *Check) {
 	c.batchStateInventory("C02.5")
 	c.newBatchRules("C02", map[string]bool{"list-vs-amount": true, "credit-without-obligation": true, "obligation-without-credit": true, "supermode-charged": true})
 	c.debitPayer("C02.6")
+	c.filterTotal("C02.6")
 	c.pricingIdentity("C02.6")
 	c.escrowInventory("C02.7")
 	c.feeWriters("C02")
@@ -57,6 +58,7 @@ func ruleC06(c *Check) {
 	c.newBatchRules("C06", map[string]bool{"skip-with-charge": true, "issue-after-pause": true, "payfail-no-pause": true, "list-vs-amount": true,
 		"obligation-without-credit": true, "running-no-successor": true, "issue-while-not-running": true})
 	c.issueDecision("C06.4")
+	c.payRefusals("C06.5")
 	c.scanOrder("C06.7")
 	c.pricingIdentity("C06.8")
 }
@@ -67,6 +69,7 @@ func ruleC07(c *Check) {
 	c.timeWindow("C07.2")
 	c.pricingIdentity("C07.3")
 	c.respondRules("C07")
+	c.volumeWriters("C07.5")
 	c.pricingTextPairs("C07.6")
 	c.newBatchRules("C07", map[string]bool{"supermode-charged": true})
 	c.paramGettersExact("C07.1", "KeyBaseDenom")
@@ -161,7 +164,13 @@ func (c *Check) debitPayer(rule string) {
 
 // ------------------------------------------------------------------ C06
 
-func (c *Check) filterRules(prefix string) {
+func (c *Check) filterRules(prefix string) { c.filterRulesMode(prefix, false) }
+
+// filterTotal (C01.3, C02.6): the amount debited for a batch is the sum of the prices of exactly the providers
+// that are issued a request — the total grows by the compared price wherever a provider is appended, and nowhere else.
+func (c *Check) filterTotal(prefix string) { c.filterRulesMode(prefix, true) }
+
+func (c *Check) filterRulesMode(prefix string, totalOnly bool) {
 	u := c.feeUnits(prefix)
 	if !u.complete() {
 		return
@@ -198,7 +207,11 @@ func (c *Check) filterRules(prefix string) {
 			missing = append(missing, n)
 		}
 	}
-	c.req(len(missing) == 0, prefix+".3", unitConstruct(u.NB.Closure, "filter-arguments"), call.Pos,
+	if totalOnly && len(missing) > 0 {
+		c.undecided(prefix, unitConstruct(u.NB.Closure, "filter-arguments"), call.Pos, "the roles of the filter's parameters could not be read from the handler's call")
+		return
+	}
+	c.req(totalOnly || len(missing) == 0, prefix+condStr(!totalOnly, ".3"), unitConstruct(u.NB.Closure, "filter-arguments"), call.Pos,
 		"the handler passes the context's own ServiceName, Providers, Timeout, ServiceFeeCap, Consumer"+condStr(len(missing) > 0, "; not passed: "+strings.Join(missing, ",")))
 	if len(missing) > 0 {
 		return
@@ -233,7 +246,7 @@ func (c *Check) filterRules(prefix string) {
 	}
 	neutral := "(ok " + prCall + ")"
 	nAppend := 0
-	var problems []string
+	var problems, totalProblems []string
 	for _, pa := range c.P.PathsOf(f) {
 		for i, ev := range pa.Events {
 			if ev.Kind != EvAssign || ev.Val == nil || ev.Val.Op != "append" || len(ev.Val.A) != 2 || ev.Loop == nil {
@@ -280,10 +293,35 @@ func (c *Check) filterRules(prefix string) {
 				}
 			}
 			if !grew {
-				problems = append(problems, "the total is not extended by the price that was compared with the cap")
+				totalProblems = append(totalProblems, "the total is not extended by the price that was compared with the cap")
 			}
 		}
 	}
+	// conversely, the total grows only where a provider is appended
+	for _, pa := range c.P.PathsOf(f) {
+		for _, e2 := range pa.Events {
+			if e2.Kind != EvAssign || e2.Val == nil || e2.Val.Op != "sdk.Coins.Add" || e2.Loop == nil {
+				continue
+			}
+			has := false
+			for _, ev := range pa.Events {
+				if ev.Kind == EvAssign && ev.Val != nil && ev.Val.Op == "append" && ev.Loop == e2.Loop && isAddrSliceVar(ev) {
+					has = true
+				}
+			}
+			if !has {
+				totalProblems = append(totalProblems, "the total grows at "+c.pos(e2.Pos)+" on a path that appends no provider")
+			}
+		}
+	}
+	sort.Strings(totalProblems)
+	totalProblems = uniq(totalProblems)
+	if totalOnly {
+		c.req(nAppend > 0 && len(totalProblems) == 0, prefix, unitConstruct(f, "total"), f.Body.Pos(),
+			"the batch total is the sum of the prices of exactly the appended providers (grows by the compared price at every append, nowhere else)"+condStr(len(totalProblems) > 0, ": "+strings.Join(totalProblems, "; ")))
+		return
+	}
+	problems = append(problems, totalProblems...)
 	sort.Strings(problems)
 	problems = uniq(problems)
 	c.req(nAppend > 0 && len(problems) == 0, prefix+".1", unitConstruct(f, "eligibility"), f.Body.Pos(),
@@ -737,4 +775,89 @@ func (c *Check) expandedReturns(f *Func) []expRet {
 		}
 	}
 	return out
+}
+
+// payRefusals (C06.5): the batch is paused iff the consumer cannot pay. The function that performs the escrow
+// credit refuses a payment only through the bank's own refusal, or through a pre-check that is exactly
+// ¬balance(payer).IsAllGTE(amount) — any other refusal that looks at the payer or the amount pauses a context
+// whose consumer could have paid (e.g. a strict comparison at an exactly sufficient balance).
+func (c *Check) payRefusals(rule string) {
+	n := 0
+	for _, f := range c.handFuncs("keeper", "service") {
+		var credit *Eff
+		for _, e := range c.directEffects(f) {
+			if isEscrowCredit(e) {
+				credit = e
+			}
+		}
+		if credit == nil || len(f.Res) == 0 || !isErrorType(f.Res[len(f.Res)-1].Type()) {
+			continue
+		}
+		n++
+		var bad []string
+		for _, pa := range c.P.PathsOf(f) {
+			if pa.Exit != ExitRevert {
+				continue
+			}
+			called := false
+			for _, ev := range pa.Events {
+				if ev.Kind == EvCall && ev.Pos == credit.Pos {
+					called = true
+				}
+			}
+			if called {
+				continue
+			}
+			relevant, exact := false, false
+			for _, fa := range pa.AllFacts() {
+				if fa.T.Contains(credit.From) || fa.T.Contains(credit.Amount) {
+					relevant = true
+				}
+				t := fa.T
+				if fa.Neg && t.Op == "sdk.Coins.IsAllGTE" && len(t.A) == 2 && stripConv(t.A[1]).Eq(stripConv(credit.Amount)) {
+					b := stripConv(t.A[0])
+					if (strings.HasSuffix(b.Op, "BankKeeper.SpendableCoins") || strings.HasSuffix(b.Op, "BankKeeper.GetAllBalances")) && b.Contains(credit.From) {
+						exact = true
+					}
+				}
+			}
+			if relevant && !exact {
+				bad = append(bad, "payment refused at "+c.pos(pa.RetPos)+" without the bank refusing it")
+			}
+		}
+		c.req(len(bad) == 0, rule, unitConstruct(f, "pay-refusals"), f.Body.Pos(),
+			"the paying function refuses only when the bank refuses (or balance(payer) ≱ amount)"+condStr(len(bad) > 0, ": "+strings.Join(uniq(bad), "; ")))
+	}
+	c.req(n >= 1, rule, "pay-functions", token.NoPos, fmt.Sprintf("%d error-returning functions credit the request escrow", n))
+}
+
+// volumeWriters (C07.5): the volume that the volume discount reads counts responses delivered — the volume family
+// is written only under the respond function, from no other message and never from the end-blocker (a request that
+// merely expires earns its consumer no discount).
+func (c *Check) volumeWriters(rule string) {
+	u := c.feeUnits(rule)
+	if !u.complete() {
+		return
+	}
+	n := 0
+	check := func(unit string, sum *Summary) {
+		for _, e := range sum.Effs {
+			if e.Kind != "store" || !(e.Op == "Set" || e.Op == "Delete") || e.Family != "0x17" {
+				continue
+			}
+			n++
+			under := e.Fn == u.RF
+			for _, nm := range e.Chain {
+				if nm == u.RF.Name {
+					under = true
+				}
+			}
+			c.req(under, rule, effConstruct(unit, e), e.Pos, "the request volume is written under the respond function "+u.RF.Name)
+		}
+	}
+	for _, en := range c.entries(rule) {
+		check(en.Msg, c.P.SummaryOf(en.Handler))
+	}
+	check("EndBlocker", c.P.SummaryOf(u.EndBlocker))
+	c.req(n >= 1, rule, "volume-writers", token.NoPos, fmt.Sprintf("%d writes of the request volume reachable from messages and the end-blocker", n))
 }
